@@ -395,7 +395,7 @@ func (t *tracker) Has(id []byte, ts int64) (bool, error) {
 	defer t.lock.Unlock()
 
 	if ts >= t.list.ts+t.list.th {
-		return false, nil
+		return t.parentHasInLock(id, ts)
 	}
 	if t.locators != nil {
 		if _, ok := t.locators[string(id)] ; ok {
